@@ -139,7 +139,8 @@ def h_switch(eng, first=None, second=None):
         shutil.rmtree(d, ignore_errors=True)
 
 
-EDITS = ["modify_same_size", "modify_other_size", "chmod", "delete", "add_untracked", "to_symlink", "stage", "unstage", "rm_cached"]
+EDITS = ["modify_same_size", "modify_other_size", "chmod", "delete", "add_untracked", "to_symlink", "stage", "unstage", "rm_cached",
+         "to_directory", "add_all", "stage_direct"]
 
 
 def h_edits(eng, e1=0):
@@ -160,7 +161,7 @@ def h_edits(eng, e1=0):
         full = os.path.join(os.fsencode(d), target)
         for ed in seq:
             if ed == "modify_same_size":
-                if os.path.islink(full) or not os.path.exists(full):
+                if os.path.islink(full) or not os.path.isfile(full):
                     eng.assume(False)
                 with open(full, "rb") as fh:
                     cur = fh.read()
@@ -170,28 +171,45 @@ def h_edits(eng, e1=0):
                     fh.write(new)
                 _touch(full)
             elif ed == "modify_other_size":
-                if os.path.islink(full) or not os.path.exists(full):
+                if os.path.islink(full) or not os.path.isfile(full):
                     eng.assume(False)
                 with open(full, "ab") as fh:
                     fh.write(b"more\n")
                 _touch(full)
             elif ed == "chmod":
-                if os.path.islink(full) or not os.path.exists(full):
+                if os.path.islink(full) or not os.path.isfile(full):
                     eng.assume(False)
                 os.chmod(full, os.lstat(full).st_mode ^ 0o111)
                 _touch(full)
             elif ed == "delete":
                 if not os.path.lexists(full):
                     eng.assume(False)
-                os.remove(full)
+                if os.path.isdir(full) and not os.path.islink(full):
+                    shutil.rmtree(full)
+                else:
+                    os.remove(full)
             elif ed == "add_untracked":
                 with open(os.path.join(os.fsencode(d), b"new.txt"), "wb") as fh:
                     fh.write(b"untracked\n")
             elif ed == "to_symlink":
-                if os.path.lexists(full):
+                if os.path.isdir(full) and not os.path.islink(full):
+                    shutil.rmtree(full)
+                elif os.path.lexists(full):
                     os.remove(full)
                 os.symlink(b"elsewhere", full)
                 _touch(full)
+            elif ed == "to_directory":
+                if os.path.isdir(full) and not os.path.islink(full):
+                    eng.assume(False)
+                if os.path.lexists(full):
+                    os.remove(full)
+                os.mkdir(full)
+                with open(os.path.join(full, b"inner"), "wb") as fh:
+                    fh.write(b"inside\n")
+            elif ed == "add_all":
+                porcelain.add(r)
+            elif ed == "stage_direct":
+                r.get_worktree().stage([os.fsdecode(target)])
             elif ed == "stage":
                 if not os.path.lexists(full):
                     eng.assume(False)
@@ -217,6 +235,10 @@ def h_edits(eng, e1=0):
         want_untracked = sorted(p for p in disk if p not in index)
         got = _status(r)
         tag = f"[edits={seq} on {target!r}, d/g kind={L[b'd/g']}]"
+        if seq[-1] == "stage_direct":
+            eng.prove(index.get(target) == disk.get(target),
+                      f"{tag} staging a path makes its index entry equal the work tree (index {index.get(target) and index.get(target)[0]}, "
+                      f"disk {disk.get(target) and disk.get(target)[0]})")
         eng.prove(got[0] == want_staged, f"{tag} staged changes exact (got {got[0]}, want {want_staged})")
         eng.prove(got[1] == want_unstaged, f"{tag} unstaged changes exact (got {got[1]}, want {want_unstaged})")
         eng.prove(got[2] == want_untracked, f"{tag} untracked files exact (got {got[2]}, want {want_untracked})")
@@ -245,4 +267,67 @@ def checks(tier):
                       "edit gets a distinct timestamp",
                outside="file <-> directory replacements; racy timestamps (excluded by assumption); agreement with git status beyond "
                        "the reference three-way comparison", tiers=q),
+    ]
+
+
+# ---------------------------------------------------------------------------------------------
+# (d) untracked files in the default ("normal") mode: wholly untracked directories are reported as "dir/"
+_b18d = checks
+UPOOL = [b"lib/a", b"lib/sub/b", b"src/util/x", b"src/new.py", b"other/y", b"top", b"tools/t"]
+
+
+def h_untracked_normal(eng):
+    """HEAD = {lib.txt, src/util.py, tools-old/k}; any subset of 7 untracked files is created; status(untracked_files=
+    "normal") lists exactly: each untracked file whose directory holds tracked files, and for the others the topmost
+    directory without tracked files, once, with a trailing slash (git's rule)"""
+    L = {b"lib.txt": KINDS[1], b"src/util.py": KINDS[1], b"tools-old/k": KINDS[1]}
+    d = scratch("c18u")
+    try:
+        r = Repo.init(d)
+        tid = _mk_tree(r.object_store, L)
+        cid = _commit(r, tid, [], 0)
+        r.refs[b"refs/heads/master"] = cid
+        r.refs.set_symbolic_ref(b"HEAD", b"refs/heads/master")
+        porcelain.reset(r, "hard", cid)
+        made = [p for i, p in enumerate(UPOOL) if bool(eng.bool(f"untracked{i}"))]
+        for p in made:
+            full = os.path.join(os.fsencode(d), p)
+            os.makedirs(os.path.dirname(full), exist_ok=True)
+            with open(full, "wb") as fh:
+                fh.write(b"u\n")
+        tracked_dirs = {b""}
+        for p in L:
+            parts = p.split(b"/")[:-1]
+            for i in range(1, len(parts) + 1):
+                tracked_dirs.add(b"/".join(parts[:i]))
+        want = set()
+        for p in made:
+            parts = p.split(b"/")
+            rep = p
+            for i in range(1, len(parts)):
+                anc = b"/".join(parts[:i])
+                if anc not in tracked_dirs:
+                    rep = anc + b"/"
+                    break
+            want.add(rep)
+        s = porcelain.status(r, untracked_files="normal")
+        got = sorted(os.fsencode(u) if isinstance(u, str) else u for u in s.untracked)
+        eng.prove(got == sorted(want), f"untracked (normal mode) after creating {made}: got {got}, want {sorted(want)}")
+        s2 = porcelain.status(r, untracked_files="all")
+        got2 = sorted(os.fsencode(u) if isinstance(u, str) else u for u in s2.untracked)
+        eng.prove(got2 == sorted(made), f"untracked (all) after creating {made}: got {got2}")
+        eng.prove(not s.unstaged and not any(s.staged.values()), "nothing else is reported")
+        r.close()
+    finally:
+        shutil.rmtree(d, ignore_errors=True)
+
+
+def checks(tier):
+    q = ("quick", "thorough")
+    return _b18d(tier) + [
+        KCheck("C18d.untracked_normal", h_untracked_normal,
+               encoded=["dulwich.porcelain.status", "dulwich.porcelain.get_untracked_paths"],
+               bounds="HEAD = {lib.txt, src/util.py, tools-old/k}; every subset of the untracked files {lib/a, lib/sub/b, src/util/x, "
+                      "src/new.py, other/y, top, tools/t} (directories whose names are byte prefixes of tracked siblings "
+                      "included); modes normal and all", outside="ignore rules; nested repositories", tiers=q),
     ]
